@@ -159,24 +159,33 @@ def run(case, drv) -> Outcome:
                 if list(new.traj.kx.shape[-1:]) not in ([n_new], [1]) or int(new.header.acq_info.number_of_samples.flatten()[0]) != n_new:
                     viol = viol or v('remove_os-shapes', 'trajectory / header sample counts do not match the cropped data')
         else:
-            log.append('compress_coils(2)')
-            st, new = call(lambda: kd.compress_coils(2))
+            variant = rng.choice(['default', 'default', 'batch_other', 'joint_k'])
+            kwargs = {'default': {}, 'batch_other': {'batch_dims': (0,)}, 'joint_k': {'joint_dims': (-3, -2, -1)}}[variant]
+            log.append(f'compress_coils(2, {variant})')
+            st, new = call(lambda: kd.compress_coils(2, **kwargs))
             value_changed = True
             if st == 'ok':
-                D = kd.data.permute(0, 2, 3, 4, 1).reshape(-1, c).to(torch.complex128)
-                Dc = D - D.mean(-1, keepdim=True)
-                R = Dc.T @ Dc.conj()
-                ev = torch.linalg.eigvalsh(R)
-                best = float(ev[-2:].sum() / ev.sum())
-                Y = new.data.permute(0, 2, 3, 4, 1).reshape(-1, 2).to(torch.complex128)
-                # energy of the (mean-removed) data captured by the compression vs the optimum of a rank-2 orthogonal projection
-                op_c = mrpro.operators.PCACompressionOp(kd.data.permute(0, 2, 3, 4, 1).reshape(-1, c), 2)
-                M = op_c._compression_matrix.reshape(2, c).to(torch.complex128)
-                captured = float(((M @ Dc.T).abs() ** 2).sum() / (Dc.abs() ** 2).sum())
-                if not torch.allclose(M @ M.conj().T, torch.eye(2, dtype=torch.complex128), atol=1e-5):
-                    viol = viol or v('compress-orthonormal', 'compression matrix rows are not orthonormal')
-                elif captured < best - 1e-4:
-                    viol = viol or v('compress-dominant', f'coil compression keeps {captured:.4f} of the signal energy, the dominant 2-dimensional coil subspace holds {best:.4f}')
+                # per group of samples that share one compression matrix (everything, or one `other` entry): the new coil data are
+                # M applied to the old ones with orthonormal rows M, and M spans the dominant subspace of the (coil-mean-removed) data
+                groups = [slice(None)] if variant == 'default' else [slice(g, g + 1) for g in range(kd.data.shape[0])]
+                for gsl in groups:
+                    D = kd.data[gsl].permute(0, 2, 3, 4, 1).reshape(-1, c).to(torch.complex128)
+                    Y = new.data[gsl].permute(0, 2, 3, 4, 1).reshape(-1, 2).to(torch.complex128)
+                    sol = torch.linalg.lstsq(D, Y).solution  # (c, 2) = M^T
+                    M = sol.T
+                    if float((D @ sol - Y).abs().max()) > 1e-3 * max(1.0, float(Y.abs().max())):
+                        viol = viol or v('compress-linear', f'compressed data ({variant}) are not one matrix applied to the coil axis of the group')
+                        break
+                    if torch.linalg.matrix_rank(D) >= c and not torch.allclose(M @ M.conj().T, torch.eye(2, dtype=torch.complex128), atol=1e-3):
+                        viol = viol or v('compress-orthonormal', f'compression matrix ({variant}) rows are not orthonormal')
+                        break
+                    Dc = D - D.mean(-1, keepdim=True)
+                    ev = torch.linalg.eigvalsh(Dc.T @ Dc.conj())
+                    best = float(ev[-2:].sum() / ev.sum())
+                    captured = float(((M @ Dc.T).abs() ** 2).sum() / (Dc.abs() ** 2).sum())
+                    if torch.linalg.matrix_rank(D) >= c and captured < best - 1e-3:
+                        viol = viol or v('compress-dominant', f'coil compression ({variant}) keeps {captured:.4f} of the signal energy, the dominant 2-dimensional coil subspace holds {best:.4f}')
+                        break
         if st != 'ok':
             viol = viol or v(f'{op}-raises', f'{op} raises {new}')
             break
